@@ -51,6 +51,18 @@ def fam_patterns(T, d=1, thorough=False):
     return out
 
 
+def fam_patterns_long(T, d=1):
+    """required durations reaching to the end of the horizon and beyond it (short horizons, rolling re-optimisation): a plant declared running
+    / off whose remaining minimum runtime / downtime covers all of the horizon, exactly the horizon, or all but the last step"""
+    out = []
+    cid = 0
+    for (mr, md, r0, o0) in [(T + 1, 0, 1, 0), (T + 2, 0, 2, 0), (T, 0, 1, 0), (T + 2, 0, 1, 0), (T + 1, 0, 2, 0), (T + 1, 0, 0, 2), (T, 2, 0, 1),
+                             (0, T + 1, 0, 1), (0, T + 2, 0, 2), (0, T, 0, 1), (2, T + 1, 0, 2), (0, T + 1, 2, 0), (2, T, 1, 0), (T, T, 0, T)]:
+        cid += 1
+        out.append(uc_cfg(cid, T, d=d, lo=2, hi=2, minrun=mr * d, mindown=md * d, run0=r0 * d, off0=o0 * d, last0=2 if r0 else 0, startcost=cid % 2))
+    return out
+
+
 def fam_outputs(T, thorough=False, d=1):
     """outputs: capacity, ramp (incl. first step vs last dispatch), start/running costs"""
     out = []
@@ -201,6 +213,7 @@ def run(tier, seed):
     th = tier == 'thorough'
     T = 6 if th else 5
     fams = [('patterns', fam_patterns(T, thorough=th), True), ('patterns_frac', fam_patterns(4 if not th else 5, d=2), True),
+            ('patterns_long', fam_patterns_long(4) + [dict(c, id=c['id'] + 100) for c in fam_patterns_long(3, d=2)], True),
             ('outputs', fam_outputs(4, thorough=th), False), ('outputs_step2', [c for k, c in enumerate(fam_outputs(3, thorough=th, d=2)) if th or k % 2 == seed % 2], False), ('fuel_heat', fam_fuel_heat(3 if not th else 4, thorough=th), False),
             ('min_load', fam_min_load(3 if not th else 4), False)]
     if th:
